@@ -60,7 +60,7 @@ type lie struct {
 	heights map[int64]bool // where the server lies
 }
 
-var lieKinds = []string{"hdr-apphash-unsigned", "hdr-forged-outsiders", "hdr-forged-real", "hdr-other-height", "missing",
+var lieKinds = []string{"hdr-apphash-unsigned", "hdr-forged-outsiders", "hdr-forged-real", "hdr-other-height", "hdr-later-height", "hdr-later-height", "commit-sig-behind-quorum", "commit-sig-behind-quorum", "missing",
 	"vals-power", "vals-extra", "vals-priorities", "params-maxbytes", "params-evidence", "params-other-height"}
 
 type rpcDouble struct {
@@ -114,6 +114,14 @@ func (r *rpcDouble) commit(ctx *rpctypes.Context, heightPtr *int64) (*ctypes.Res
 	if r.lying("hdr-other-height", h) && h > 1 {
 		h--
 	}
+	if r.lie.kind == "hdr-later-height" && r.lie.heights[h] && h < r.c.Tip() {
+		// a genuine, properly signed header that every witness will confirm - of a LATER height than the one asked for
+		// (the validators route is asked for the returned height and answers honestly)
+		r.lying("hdr-later-height", h)
+		if h += 1 + h%3; h > r.c.Tip() {
+			h = r.c.Tip()
+		}
+	}
 	hdr := r.c.Blocks[h].Header // copy
 	cm := r.c.Commits[h]
 	switch {
@@ -129,6 +137,19 @@ func (r *rpcDouble) commit(ctx *rpctypes.Context, heightPtr *int64) (*ctypes.Res
 		vs := r.c.ValidatorsAt(h)
 		lb := lib.ForgeLightBlock(hdr.ChainID, hdr, vs, false, 0, realKeys(vs), nil)
 		return ctypes.NewResultCommit(lb.Header, lb.Commit, true), nil
+	}
+	if r.lying("commit-sig-behind-quorum", h) {
+		// genuine header, genuine quorum; the last for-block signature (never looked at by a verification that stops at
+		// +2/3) is garbage
+		cp := *cm
+		cp.Signatures = append([]types.CommitSig(nil), cm.Signatures...)
+		for i := len(cp.Signatures) - 1; i >= 0; i-- {
+			if cp.Signatures[i].BlockIDFlag == types.BlockIDFlagCommit {
+				cp.Signatures[i].Signature = make([]byte, 64)
+				break
+			}
+		}
+		cm = &cp
 	}
 	return ctypes.NewResultCommit(&hdr, cm, true), nil
 }
@@ -572,8 +593,15 @@ func runLight(t *rapid.T, test string) {
 	case !anyKind("params-evidence") && !reflect.DeepEqual(st.ConsensusParams, tr.ConsensusParams):
 		d.failf("ConsensusParams %+v want %+v", st.ConsensusParams, tr.ConsensusParams)
 	}
-	if done.commit == nil || !reflect.DeepEqual(done.commit.Signatures, c.Commits[h].Signatures) || !done.commit.BlockID.Equals(c.IDs[h]) || done.commit.Height != h {
-		d.failf("returned commit is not the chain's commit for block %d", h)
+	// the commit goes into the block store as the seen commit of block h (node.startStateSync -> SaveSeenCommit) and
+	// consensus rebuilds its last-commit vote set from it: every slot must be right, not only a +2/3 prefix. Another
+	// valid commit for the same block would do (nodes hold different seen commits).
+	if done.commit == nil {
+		d.failf("no commit returned")
+	}
+	if err := lib.RefCommitCheckStrict(c.GenDoc.ChainID, c.ValidatorsAt(h), c.IDs[h], h, done.commit); err != nil {
+		d.failf("FINDING %s: the commit returned for block %d (to be stored as its seen commit) is not a fully valid commit of that block by its validators: %v",
+			findingCommit, h, err)
 	}
 	if mode == "all-honest" && uint64(h) != uint64(maxInt(hs)) {
 		d.failf("honest servers: restored height %d, best advertised snapshot was %d", h, maxInt(hs))
